@@ -101,6 +101,7 @@ type Result struct {
 	Unknowns []string // why the result is inconclusive (empty = conclusive)
 	Trace    []string
 	Servers  []*Server // after use-server evaluation: nil = normal load balancing
+	Applied  []string  // every http-request/http-response rule whose condition held (or is unknown, marked "?"), pathID terms removed
 }
 
 // Inconclusive ...
@@ -704,9 +705,17 @@ func (e *evalCtx) runRules(sec *Section) *Action {
 		setVar := strings.HasPrefix(verb, "set-var(")
 		relevant := setVar || terminalActions[verb] || strings.HasPrefix(verb, "lua.") || verb == "replace-path" || verb == "set-path"
 		if !relevant {
+			// not needed for routing: only note whether it applies (normal form)
+			saved := len(e.res.Unknowns)
+			c := e.lineCond(condTok, unless)
+			e.res.Unknowns = e.res.Unknowns[:saved]
+			e.noteApplied(sec, tok[0], action, condTok, unless, c)
 			continue
 		}
 		c := e.lineCond(condTok, unless)
+		if !setVar {
+			e.noteApplied(sec, tok[0], action, condTok, unless, c)
+		}
 		if c == Unknown {
 			e.unknown(fmt.Sprintf("condition of %q in %s", l.Raw, sec.Name))
 			if setVar {
@@ -746,6 +755,58 @@ func (e *evalCtx) runRules(sec *Section) *Action {
 		}
 	}
 	return nil
+}
+
+// noteApplied records a rule that applies to the request in a form that does not
+// depend on path-id numbering: `{ var(txn.pathID) -m str ... }` terms are dropped
+// when they hold; conditions that cannot be decided are kept verbatim behind "?".
+func (e *evalCtx) noteApplied(sec *Section, kw string, action, condTok []string, unless bool, c Tri) {
+	if c == False {
+		return
+	}
+	line := sec.Name + ": " + kw + " " + strings.Join(action, " ")
+	if c == Unknown {
+		word := " ?if "
+		if unless {
+			word = " ?unless "
+		}
+		line += word + strings.Join(stripPathID(condTok), " ")
+	}
+	e.res.Applied = append(e.res.Applied, line)
+}
+
+// stripPathID removes `{ var(txn.pathID) -m str ids... }` terms from a condition.
+func stripPathID(tok []string) []string {
+	var out []string
+	for i := 0; i < len(tok); i++ {
+		if (tok[i] == "{" || tok[i] == "!{") && i+1 < len(tok) && tok[i+1] == "var(txn.pathID)" {
+			j := i
+			for j < len(tok) && tok[j] != "}" {
+				j++
+			}
+			out = append(out, tok[i]+"pathID}")
+			i = j
+			continue
+		}
+		out = append(out, tok[i])
+	}
+	return out
+}
+
+// responseRules notes which http-response rules apply (conditions are evaluated
+// with request-time knowledge only).
+func (e *evalCtx) responseRules(sec *Section) {
+	e.sec = sec
+	for _, l := range sec.Lines {
+		if l.Tok[0] != "http-response" || len(l.Tok) < 2 {
+			continue
+		}
+		action, condTok, unless := splitCond(l.Tok[1:])
+		saved := len(e.res.Unknowns)
+		c := e.lineCond(condTok, unless)
+		e.res.Unknowns = e.res.Unknowns[:saved]
+		e.noteApplied(sec, l.Tok[0], action, condTok, unless, c)
+	}
 }
 
 // switchBackend applies use_backend / default_backend.
@@ -865,6 +926,7 @@ func (c *Config) Route(req Request) *Result {
 			res.Final = a
 			return res
 		}
+		e.responseRules(be.Section)
 		e.useServer(be)
 		return res
 	}
